@@ -2,6 +2,7 @@ package main
 
 import (
 	"fmt"
+	"time"
 
 	"verif/harness/vlib"
 )
@@ -178,4 +179,17 @@ func dbglists() {
 		}
 	}
 	fmt.Println("lists", tot, "decided-by-some-event", decided, "shadowed-by-earlier-unconditional", shadowUncond, "unsatisfiable", satFail, "other(budget/shadowed by list)", budgetCut)
+}
+
+func init() { checks["dbgexact"] = dbgexact }
+
+func dbgexact() {
+	run := vlib.NewRun("C09", "other")
+	_, ts := mustTargets(run)
+	t := targetByName(ts, "x86_64")
+	for _, n := range []int{4096, 4097, 65535, 65536, 65537, 131072} {
+		t0 := time.Now()
+		p, l := exactSizePolicy(t, n)
+		fmt.Println(n, l, len(p.Syscalls), time.Since(t0))
+	}
 }
